@@ -24,7 +24,7 @@
 //!
 use crate::engine::Engine;
 use crate::goal::{AnyGoal, InferredGoal};
-use crate::lterm::LTerm;
+use crate::lterm::{LTerm, LTermInner};
 use crate::solver::{Solve, Solver};
 use crate::state::{unify_rec, Constraint, SMap, SResult, State};
 use crate::stream::Stream;
@@ -158,7 +158,14 @@ where
     fn run(self: Rc<Self>, state: State<U, E>) -> SResult<U, E> {
         let mut extension = SMap::new();
         let mut test_state = state.clone();
-        for (u, v) in self.0.iter() {
+        // The pairs are re-unified in the order of their variable ids, not in the randomised
+        // iteration order of the map: the residual constraint depends on that order.
+        let mut pairs = self.0.iter().collect::<Vec<_>>();
+        pairs.sort_by_key(|(u, _)| match u.as_ref() {
+            LTermInner::Var(id, _) => Some(*id),
+            _ => None,
+        });
+        for (u, v) in pairs {
             match unify_rec(test_state, &mut extension, &u, &v) {
                 Err(_) => return Ok(state),
                 Ok(new_state) => test_state = new_state,
